@@ -181,7 +181,7 @@ Proof.
       destruct (fl flags F_DONTBIND); [exact I|].
       pose proof (VamBalStep2.bind_memory_inv c Hc Hmax Hlarge ms0 G v3 s image id 0 I3) as B.
       assert (LB : lists_frame' v3 (fst (bind_memory v3 s image id 0))).
-      { unfold bind_memory. destruct (id =? 0); [apply lists_frame'_refl|]. destruct (negb _); [apply lists_frame'_refl|].
+      { unfold bind_memory. destruct (id =? 0); [apply lists_frame'_refl|]. destruct (negb _); [apply lists_frame'_refl|]. destruct (0 <? 0); [apply lists_frame'_refl|].
         match goal with |- context [match ?t with OK _ => _ | ER _ => _ | PANIC => _ | STUCK => _ end] => destruct t as [o|bc| |] end;
           try apply lists_frame'_refl.
         destruct (dev_bind (v_m v3) image id (a_mem (get_alloc v3 s)) o) as (mb & cb). apply lists_frame'_set_m. }
